@@ -396,40 +396,103 @@ struct Variant {
   std::vector<std::string> procEmpty;
   std::vector<std::pair<std::string, std::string>> dropKeys; // (where, key)
   bool noDtype = false;
+  // the fault holds during tick 1 only: the files are healthy at tick 0,
+  // faulty at tick 1 and healthy again at tick 2 (both transitions)
+  bool late = false;
 };
 
 static Json::Value applyVariant(const Json::Value& scenario, const Variant& v) {
   Json::Value p = scenario;
   p["prop"] = "C10v";
   p["root_tag"] = "C10";
-  for (const auto& f : v.faults)
-    p["faults"].append(f);
+  for (const auto& f : v.faults) {
+    Json::Value r = f;
+    if (v.late)
+      r["tick"] = 1;
+    p["faults"].append(r);
+  }
   for (const auto& e : v.edits)
     p["edits"].append(e);
+  // static form: the initial world already has the defect. late form: world
+  // operations introduce it at tick 1 and take it back at tick 2.
+  auto lateOp = [&](int t, const Json::Value& op) {
+    Json::Value o = op;
+    o["t"] = t;
+    p["ops"].append(o);
+  };
   for (auto& ef : v.emptyFiles)
     for (auto& c : p["world"]["cgroups"])
-      if (ef.first == "*" || c["path"].asString() == ef.first)
-        c["empty"].append(ef.second);
-  for (auto& f : v.procEmpty)
-    p["world"]["proc"]["empty"].append(f);
+      if (ef.first == "*" || c["path"].asString() == ef.first) {
+        if (!v.late) {
+          c["empty"].append(ef.second);
+        } else {
+          Json::Value on(Json::objectValue), off(Json::objectValue);
+          on["op"] = off["op"] = "set";
+          on["cg"] = off["cg"] = c["path"];
+          on["v"]["empty"].append(ef.second);
+          off["v"]["empty"] = Json::Value(Json::arrayValue);
+          lateOp(1, on);
+          lateOp(2, off);
+        }
+      }
+  for (auto& f : v.procEmpty) {
+    if (!v.late) {
+      p["world"]["proc"]["empty"].append(f);
+    } else {
+      Json::Value on(Json::objectValue), off(Json::objectValue);
+      on["op"] = off["op"] = "proc";
+      on["v"]["empty"].append(f);
+      off["v"]["empty"] = Json::Value(Json::arrayValue);
+      lateOp(1, on);
+      lateOp(2, off);
+    }
+  }
   for (auto& dk : v.dropKeys) {
     if (dk.first == "vmstat") {
       Json::Value nv(Json::arrayValue);
       for (const auto& e : p["world"]["proc"]["vmstat"])
         if (e[0].asString() != dk.second)
           nv.append(e);
-      p["world"]["proc"]["vmstat"] = nv;
+      if (!v.late) {
+        p["world"]["proc"]["vmstat"] = nv;
+      } else {
+        Json::Value on(Json::objectValue), off(Json::objectValue);
+        on["op"] = off["op"] = "proc";
+        on["v"]["vmstat"] = nv;
+        off["v"]["vmstat"] = p["world"]["proc"]["vmstat"];
+        lateOp(1, on);
+        lateOp(2, off);
+      }
     } else if (dk.first == "meminfo") {
       // MemTotal / MemFree / SwapTotal / SwapFree are rendered from fields:
       // drop by overriding the raw file without that line
-      p["world"]["proc"]["drop_meminfo"].append(dk.second);
+      if (!v.late) {
+        p["world"]["proc"]["drop_meminfo"].append(dk.second);
+      } else {
+        Json::Value on(Json::objectValue), off(Json::objectValue);
+        on["op"] = off["op"] = "proc";
+        on["v"]["drop_meminfo"].append(dk.second);
+        off["v"]["drop_meminfo"] = Json::Value(Json::arrayValue);
+        lateOp(1, on);
+        lateOp(2, off);
+      }
     } else if (dk.first == "memstat") {
       for (auto& c : p["world"]["cgroups"]) {
         Json::Value nv(Json::arrayValue);
         for (const auto& e : c["memstat"])
           if (e[0].asString() != dk.second)
             nv.append(e);
-        c["memstat"] = nv;
+        if (!v.late) {
+          c["memstat"] = nv;
+        } else {
+          Json::Value on(Json::objectValue), off(Json::objectValue);
+          on["op"] = off["op"] = "set";
+          on["cg"] = off["cg"] = c["path"];
+          on["v"]["memstat"] = nv;
+          off["v"]["memstat"] = c["memstat"];
+          lateOp(1, on);
+          lateOp(2, off);
+        }
       }
     }
   }
@@ -501,6 +564,16 @@ static std::vector<Variant> enumerate(const Json::Value& scenario,
       Variant v;
       v.desc = "memstat-key:" + k;
       v.dropKeys.emplace_back("memstat", k);
+      vs.push_back(v);
+    }
+  }
+  // (a'), (b') the same defects present during the middle tick only
+  {
+    size_t n = vs.size();
+    for (size_t i = 0; i < n; i++) {
+      Variant v = vs[i];
+      v.late = true;
+      v.desc = "tick1-only:" + v.desc;
       vs.push_back(v);
     }
   }
